@@ -4,7 +4,7 @@ a scratch worktree of /repo (outside /repo and /verif): patch applies, crate bui
 unit tests pass with it, the demonstration fails with it and passes without it."""
 import glob, json, os, re, shutil, subprocess, sys
 
-WT = '/tmp/confirm_wt'
+WT = os.environ.get('CONFIRM_WT', '/tmp/confirm_wt')
 
 def sh(cmd, cwd=None, timeout=3600):
     return subprocess.run(cmd, shell=True, capture_output=True, text=True, cwd=cwd, timeout=timeout)
@@ -69,7 +69,7 @@ def main():
             meta = {
                 'id': sid,
                 'property': prop,
-                'source': 'independent sub-agent given only the property text and a scratch worktree' + ('' if rnd == 1 else f' (round {rnd}: also told which two mechanisms round 1 had already produced, to avoid repeats)'),
+                'source': 'independent sub-agent given only the property text and a scratch worktree' + ('' if rnd == 1 else f' (round {rnd}: also told which mechanisms the earlier rounds had already produced, to avoid repeats)'),
                 'needs_to_manifest': 'see notes.md',
                 'confirmed_by': {
                     'scratch_worktree': WT,
